@@ -42,7 +42,71 @@ def step(expr, action, registry, shift=0, snapshot=False):
     return registry, {'out': out, 'npersistent': len(persistent), 'nstored': len(stored)}
 
 
+def pinned(case):
+    """An implicitly addressed (latest) generation read through the real asset levels while another training commits a
+    new generation between two state loads of the same action."""
+    import datetime
+    import uuid
+
+    from forml.io import asset
+
+    class Stub(asset.Registry):
+        def __init__(self, count, width):
+            super().__init__(staging='/var/tmp/verif_c04_staging')
+            self.count, self.width = count, width
+
+        def __hash__(self):
+            return id(self)
+
+        def __eq__(self, other):
+            return other is self
+
+        def projects(self):
+            return ['prj']
+
+        def releases(self, project):
+            return ['1']
+
+        def generations(self, project, release):
+            return list(range(1, self.count + 1))
+
+        def open(self, project, release, generation):
+            g = int(generation)
+            return asset.Tag(training=asset.Tag.Training(datetime.datetime(2020, 1, 1), g),
+                             states=[uuid.UUID(int=g * 100 + i + 1) for i in range(self.width)])
+
+        def read(self, project, release, generation, sid):
+            return f'{int(generation)}:{sid.int - int(generation) * 100 - 1}'.encode()
+
+        def close(self, project, release, generation, tag):
+            raise NotImplementedError()
+
+        def push(self, package):
+            raise NotImplementedError()
+
+        def pull(self, project, release):
+            raise NotImplementedError()
+
+        def write(self, project, release, sid, state):
+            raise NotImplementedError()
+
+    registry = Stub(case['gens'], case['width'])
+    generation = asset.Directory(registry).get('prj').get('1').get(None if case['implicit'] else case['gens'])
+    loads = []
+    for i in range(case['width']):
+        if i == case['commit_before']:
+            registry.count += 1        # a concurrent training commits the next generation right now
+        g, idx = generation.get(i).decode().split(':')
+        loads.append([int(g), int(idx)])
+    return {'loads': loads}
+
+
 def observe(case):
+    if case.get('t') == 'pinned':
+        try:
+            return pinned(case)
+        except Exception as err:  # pylint: disable=broad-except
+            return {'error': f'{type(err).__name__}: {err}'}
     """Drive the history, one subprocess per action."""
     import subprocess
 
